@@ -66,8 +66,47 @@ def run(ctx):
         [('MC_Session_lines.cfg', 'C08 lines'), ('MC_Session_lines_sup.cfg', 'C08 lines, --supress')], sessions(ctx))
     # ... and as a real process in file mode
     sessbase.process_batch(ctx, rep, ['junk', 'msg', 'text'], ctx.pick(12, 120), 1000433, junk=0.35, show=None)
+    process_bytes(ctx, rep)
     return rep
 
 
+def process_bytes(ctx, rep):
+    """lines with bytes that are not valid UTF-8, through the real process (file and pipe mode, standard output a pipe): one
+    item per line, in input order - compared with the same lines, undecodable bytes replaced, fed line by line in process"""
+    import os, tempfile, shutil
+    import e1, tlc
+    from props import c13
+    tmp = tempfile.mkdtemp(prefix='c08-', dir=os.path.join(tlc.OUT, 'tmp'))
+    try:
+        for j, (b1, b2) in enumerate([(b'caf\xe9 window ready', b'caf\xe9_manager_v1'), (b'\xff\xfe\xfd', b'x\x80y'), (b'ok \xc3( broken', b'\xe2\x82'),
+                                      (b'plain chatter', b'tail \xc0\xaf')][:ctx.pick(3, 4)]):
+            blines = [b'[1000.100]  -> wl_display@1.get_registry(new id wl_registry@2)', b'app: ' + b1,
+                      b'[1000.200]  -> wl_registry@2.bind(1, "' + b2 + b'", 1, new id [unknown]@3)', b'more ' + b1,
+                      b'[1000.300]  -> wl_display@1.sync(new id wl_callback@4)', b1, b'[1000.400] wl_callback@4.done(7)']
+            dec = [l.decode('utf-8', 'replace') for l in blines]
+            ref = {'init': dict(sessbase.NOFILTER), 'events': [{'in': {'e': 'line', 'raw': l}} for l in dec] + [{'in': {'e': 'eof'}}]}
+            e1.run(ref, render={'dialect': 'new'})
+            if 'escaped' in ref:
+                continue
+            want = c13.norm([c13.key_of(i) for e in ref['events'] for i in e['obs']['items']])
+            f = os.path.join(tmp, 'b%d.log' % j)
+            open(f, 'wb').write(b'\n'.join(blines) + b'\n')
+            for mode, args, stdin in (('file', ['-C', '-l', f], b'quit\n'), ('pipe', ['-C', '-p'], b'\n'.join(blines) + b'\n')):
+                rc, out, err = c13.run_tool(args, stdin)
+                items, _ = c13.items_of(out)
+                got = c13.norm([c13.key_of(i) for i in items])
+                rep.case('process-bytes:%s:%d' % (mode, j))
+                if got != want:
+                    first = next((i for i, (a, b) in enumerate(zip(got, want)) if a != b), min(len(got), len(want)))
+                    rep.violation('process-bytes:' + mode, '%s mode as a real process: item %d is %s, line by line it is %s (%d vs %d items)'
+                                  % (mode, first, got[first:first + 1], want[first:first + 1], len(got), len(want)),
+                                  {'kind': 'process-bytes', 'lines_hex': [l.hex() for l in blines], 'mode': mode})
+    finally:
+        shutil.rmtree(tmp, ignore_errors=True)
+
+
 def replay(ctx, data):
+    if data.get('kind') == 'process-bytes':
+        print([bytes.fromhex(h) for h in data['lines_hex']])
+        return True
     return sessionprop.replay_session(ctx, data, relevant('C08'))
